@@ -162,6 +162,8 @@ pub struct IoPolicy {
     /// once the peer has dropped its transport, writes fail with BrokenPipe (otherwise they are accepted and discarded,
     /// which is what a half-closed TCP connection does until an RST arrives)
     pub error_on_peer_gone: bool,
+    /// total number of octets the transport accepts before it applies back-pressure (Pending until the budget is lifted)
+    pub write_budget: Option<usize>,
 }
 
 impl Default for IoPolicy {
@@ -180,6 +182,7 @@ impl Default for IoPolicy {
             shutdown_alts: false,
             write_blocked: false,
             error_on_peer_gone: false,
+            write_budget: None,
         }
     }
 }
@@ -282,6 +285,15 @@ impl Shared {
         }
         v
     }
+    /// None lifts the budget (and wakes a writer that ran into it)
+    pub fn set_write_budget(&mut self, side: Side, budget: Option<usize>) {
+        self.policy[side.idx()].write_budget = budget;
+        if budget.is_none() {
+            if let Some(w) = self.blocked_writers[side.idx()].take() {
+                w.wake();
+            }
+        }
+    }
     pub fn set_write_blocked(&mut self, side: Side, blocked: bool) {
         self.policy[side.idx()].write_blocked = blocked;
         if !blocked {
@@ -345,11 +357,16 @@ impl SimIo {
         if data.is_empty() {
             return Poll::Ready(Ok(0));
         }
-        if s.policy[me].write_blocked {
+        if s.policy[me].write_blocked || s.policy[me].write_budget == Some(0) {
             s.blocked_writers[me] = Some(cx.waker().clone());
             return Poll::Pending;
         }
         let pol = s.policy[me].clone();
+        let budget_cap = pol.write_budget.unwrap_or(usize::MAX);
+        let data = &data[..data.len().min(budget_cap)];
+        if let Some(b) = s.policy[me].write_budget.as_mut() {
+            *b -= data.len().min(*b);
+        }
         let full = match pol.write_cap {
             Some(c) => data.len().min(c.max(1)),
             None => data.len(),
